@@ -406,6 +406,8 @@ def createCli (c : Cfg) (m : Listing) (s : St) (files : List Path) : Except Err 
 inductive BOp where
   | create (name : Name) (files : List Path)   -- `manager.create_backup(files, name)`, any selection incl. `[]`
   | reopen                                     -- a fresh `BackupManager(data_root)` replaces the manager
+  | restore (name : Name) (tasks : List Name)  -- `manager.restore_backup(name, tasks)`
+  | modify (p : Path) (b : List Sym)           -- a data file is overwritten / created
 deriving Repr
 
 /-- state of a session: the manager's dictionary and the file system -/
@@ -416,7 +418,24 @@ def bstep (c : Cfg) (ms : Listing × St) : BOp → Listing × St
   | .reopen => match scan ms.2 c.backups with
     | .ok l => (l, ms.2)
     | .error _ => ms          -- the constructor raises; the old manager stays in use
+  | .restore n tasks => match lookup ms.1 n with
+    | some ks => match restore { c with name := n } (ks.map splitKey) tasks ms.2 with
+      | .ok s' => (ms.1, s')
+      | .error _ => ms        -- `NoBackup` (empty record) raises before any copy
+    | none => ms
+  | .modify p b => (ms.1, set ms.2 p (.reg b))
 
 def brun (c : Cfg) (h : List BOp) (ms : Listing × St) : Listing × St := h.foldl (bstep c) ms
+
+/-- side conditions of a session, checked where they arise: data files that are written, and the files
+recorded in a backup that is restored, live outside the backups directory. -/
+def BOp.ok (c : Cfg) (ms : Listing × St) : BOp → Prop
+  | .restore n _ => ∀ ks, lookup ms.1 n = some ks → ∀ k ∈ ks, ¬ c.backups <+: c.dataRoot ++ splitKey k
+  | .modify p _ => ¬ c.backups <+: p
+  | _ => True
+
+def BOk (c : Cfg) : List BOp → Listing × St → Prop
+  | [], _ => True
+  | o :: r, ms => o.ok c ms ∧ BOk c r (bstep c ms o)
 
 end HedVerif.Backup
